@@ -95,7 +95,8 @@ def gen(seed, run, sub="direct", tier="quick"):
     if sub == "direct":
         sched["p_stall"] = 0.0      # one thread only: stalling it just burns virtual time
     return {
-        "second": second, "wfail_at": wfail_at,
+        "second": second, "wfail_at": wfail_at, "wfail_n": r.choice([1, 1, 3, 4, 6]),
+        "reset_at": r.randrange(1, 40) if (sub == "direct" and r.random() < 0.1) else None,
         "lane": "c17", "sub": sub, "arrivals": arrivals, "end": end, "end_at": round(t, 6),
         "draws": draws, "cfg": {"greeting": ""}, "max_steps": 400000 + int(80 * t),
         "sched": sched,
@@ -128,7 +129,10 @@ def execute(scn, guide=None, keep=False):
         cap = 8 * (len(scn["arrivals"]) + stream.count(b"\n") + 8) + 4000 + int(6 * scn.get("end_at", 0))
         while res["calls"] < cap:
             res["calls"] += 1
-            if scn.get("wfail_at") == res["calls"]:
+            if scn.get("reset_at") == res["calls"]:
+                d.reset()            # documented to have no effect on socket connections
+                k.probe("c17.reset_called_mid_stream")
+            if scn.get("wfail_at") is not None and scn["wfail_at"] <= res["calls"] < scn["wfail_at"] + scn.get("wfail_n", 1):
                 # the application writes while reading and the write fails (peer shut its read side)
                 sock.wfail = True
                 try:
